@@ -240,7 +240,9 @@ func C14(c *core.Ctx) {
 	c.Add("distinct_nontrivial", nt)
 	c.Sample(map[string]any{"scenario": cases[0]["scenario"], "argv": cases[0]["argv"], "exit": cases[0]["exit"], "stderr": cases[0]["stderr"]})
 	c.JudgeAndReport("Trace_Command", "Trace_Command.cfg", cases, 8,
-		func(old map[string]any) map[string]any { return runC14(bin, root, old["id"].(int), &scs[old["id"].(int)-1], c.Seed) },
+		func(old map[string]any) map[string]any {
+			return runC14(bin, root, old["id"].(int), &scs[old["id"].(int)-1], c.Seed)
+		},
 		func(cs map[string]any) (string, string) {
 			s := cs["scenario"].(struct {
 				Graph   string `json:"graph"`
